@@ -80,8 +80,10 @@ class C03(Prop):
                     mode = rng.choice(["forced-oxid", "forced-oxid", "auto", "auto", "forced-other", "long", "ros"])
                     callee = rng.choice([f"name:{name}"] * 6 + ["notname", "notcall"])
                     lines.append(f"met {mode} {callee} {1 if rng.random() < 0.8 else 0} other")
-                elif r < 0.62:
+                elif r < 0.6:
                     lines.append("schemas")
+                elif r < 0.64:
+                    lines.append(f"unreg {name}")
                 elif r < 0.8:
                     lines.append(f"call {name}")
                 else:
@@ -133,6 +135,12 @@ class C03(Prop):
                         styl.append({"lines": [f"cfg {caps_str(al)}", f"reg w 1 {caps_str(bad)} none 0 {style}",
                                                f"reg f 2 {caps_str(al[:1])} none 0 {style}"] + pre + [e],
                                      "note": "exhaustive tool style x schema export x entry"})
+        for al in ([], [0]):
+            for e1 in entries:
+                for e2 in entries:
+                    hist.append({"lines": [f"cfg {caps_str(al)}", f"reg w 1 {caps_str(al[:1])} none 0", e1, "unreg w", e2,
+                                           "reg w 2 2 none 0", e2, "unreg w", "reg w 3 - none 0", e2],
+                                 "note": "exhaustive use / remove / re-register history"})
         return [{"name": "re-registration histories: allowed/used/re-registered outside the ceiling x entry-point pairs",
                  "cases": hist},
                 {"name": "tool-object styles (with/without parameters_schema, SimpleTool) x schema export x entry points incl. duplicate call ids",
@@ -207,7 +215,7 @@ class C03(Prop):
                 obs.append("ok")
             elif mito is None:
                 new(None)
-                obs.append("bad-op") if t[0] not in ("reg", "met", "call", "loop") else None
+                obs.append("bad-op") if t[0] not in ("reg", "met", "call", "loop", "unreg", "schemas") else None
             if t[0] == "reg":
                 body, req, caps, raises = int(t[2]), parse_caps(t[3]), parse_caps(t[4]), t[5] == "1"
                 style = t[6] if len(t) > 6 else "a"
@@ -217,6 +225,10 @@ class C03(Prop):
                 reg[t[1]] = body
                 raising[body] = raises
                 mito.engulf_tool(self._mk_tool(t[1], body, req, caps, raises, counter, style))
+                obs.append("ok")
+            elif t[0] == "unreg":
+                mito.tools.pop(t[1], None)
+                reg.pop(t[1], None)
                 obs.append("ok")
             elif t[0] == "schemas":
                 try:
@@ -353,6 +365,10 @@ class C03(Prop):
                 if al is not None and not need <= set(al):
                     out.append(Violation("least_privilege", f"tool body {b} requiring {sorted(need)} not executed under ceiling {al}",
                                          f"executed during `{line}`", idx))
+            for b in inf["ran"]:
+                if b not in inf["reg"].values():
+                    out.append(Violation("only_currently_registered", "only bodies registered at that moment run",
+                                         f"body {b} ran during `{line}` but the registry holds {sorted(inf['reg'].items())}", idx))
             if o.startswith("raise:") or " raise:" in o:
                 out.append(Violation("refusal_is_reported_not_raised", "a failure result", o, idx))
             t = line.split()
